@@ -155,7 +155,7 @@ def make_cells(chk):
 
     ncls = len(rcpt_classes("x"))
     if chk.tier == "quick":
-        picked = rng.sample(cfgs, 70)
+        picked = rng.sample(cfgs, 110)
     else:
         picked = cfgs
     k = rng.randrange(1000)
@@ -181,7 +181,7 @@ def make_cells(chk):
                 cells.append({"cfg": concretise(c, raw), "cfgsym": c, "lines": [(tag, args, intended)], "raw": raw,
                               "hs": hs, "spam": sv[0]})
     # several recipients per transaction (limit, duplicates, mixtures)
-    nmulti = 60 if chk.tier == "quick" else 600
+    nmulti = 100 if chk.tier == "quick" else 600
     for _ in range(nmulti):
         c = rng.choice(cfgs)
         cls = rcpt_classes(fresh())
@@ -198,15 +198,24 @@ def make_cells(chk):
     return cells
 
 
+# generous: they only matter when something hangs (a loaded machine must not look like a defect)
+T_STEP = 30000
+T_EOF = 45000
+
+
+def world_timed_out(res):
+    return any(isinstance(o, dict) and o.get("how") in ("timeout", "write-error") for o in res.get("obs", []))
+
+
 def cell_ops(i, cell):
     conn = "l%d" % i
     ops = [dict(op="lmtp_open", conn=conn, **cell["cfg"]),
-           dict(op="send", conn=conn, data="LHLO client.test\r\n", until="lmtp:1"),
-           dict(op="send", conn=conn, data="MAIL FROM:<s@sender.net>\r\n", until="lmtp:1")]
+           dict(op="send", conn=conn, data="LHLO client.test\r\n", until="lmtp:1", timeout_ms=T_STEP),
+           dict(op="send", conn=conn, data="MAIL FROM:<s@sender.net>\r\n", until="lmtp:1", timeout_ms=T_STEP)]
     for (_, args, _) in cell["lines"]:
-        ops.append(dict(op="send", conn=conn, data=C.latin("RCPT " + args + "\r\n"), until="lmtp:1"))
-    ops.append(dict(op="send", conn=conn, data="DATA\r\n", until="lmtp:1"))
-    ops.append(dict(op="send", conn=conn, data=C.latin(stuffed(cell["raw"]) + ".\r\nQUIT\r\n"), until="eof", timeout_ms=8000))
+        ops.append(dict(op="send", conn=conn, data=C.latin("RCPT " + args + "\r\n"), until="lmtp:1", timeout_ms=T_STEP))
+    ops.append(dict(op="send", conn=conn, data="DATA\r\n", until="lmtp:1", timeout_ms=T_STEP))
+    ops.append(dict(op="send", conn=conn, data=C.latin(stuffed(cell["raw"]) + ".\r\nQUIT\r\n"), until="eof", timeout_ms=T_EOF))
     ops.append(dict(op="close", conn=conn))
     ops.append(dict(op="c17_view"))
     return ops
@@ -378,9 +387,11 @@ def parse_nat_list(log, name):
 
 def eval_policy_cases(tag, cases):
     """cases: list of Coq pcase terms -> (model_bad, spec_bad, classes) or None"""
-    model_bad, spec_bad, classes = [], [], []
+    from concurrent.futures import ThreadPoolExecutor
     CH = 400
-    for off in range(0, len(cases), CH):
+    offs = list(range(0, len(cases), CH))
+
+    def one(off):
         chunk = cases[off:off + CH]
         body = C.COQ_CASE_HEADER + COQ_POLICY_DEFS
         body += "Definition cases : list pcase := [\n%s].\n" % ";\n".join(chunk)
@@ -393,6 +404,15 @@ def eval_policy_cases(tag, cases):
         mb, sb, cl = parse_nat_list(log, "model_bad"), parse_nat_list(log, "spec_bad"), parse_nat_list(log, "classes")
         if mb is None or sb is None or cl is None or len(cl) != len(chunk):
             return None, log
+        return (mb, sb, cl), ""
+
+    with ThreadPoolExecutor(max_workers=6) as ex:
+        outs = list(ex.map(one, offs))
+    model_bad, spec_bad, classes = [], [], []
+    for off, (r, log) in zip(offs, outs):
+        if r is None:
+            return None, log
+        mb, sb, cl = r
         model_bad += [off + i for i in mb]
         spec_bad += [off + i for i in sb]
         classes += cl
@@ -414,13 +434,22 @@ def run_policy(chk, cells, corpus_cells):
         for i, cell in enumerate(w):
             ops += cell_ops(i, cell)
         scen.append(ops)
-    results = C.run_many(scen, workers=12, timeout=900)
+    results = C.run_many(scen, workers=12, timeout=1500)
+    # a crashed or stalled world is re-run once, alone, before it counts
+    for wi, res in enumerate(results):
+        if res.get("crashed") or world_timed_out(res):
+            results[wi] = C.run_ops(scen[wi], timeout=1500)
+            chk.notes.append("policy world %d was re-run (first attempt %s)" % (wi, "crashed" if res.get("crashed") else "timed out"))
     flat = []   # (cell, before, ob, corpus_class)
     for wi, (w, res) in enumerate(zip(worlds, results)):
         if res.get("crashed"):
             chk.broken_obligation("driver crashed in a C17 policy world: %s" % res.get("stderr", "")[:400], {"suite": "policy", "world": wi})
             continue
         obs = res["obs"]
+        if world_timed_out(res):
+            chk.broken_obligation("a C17 policy world stalled twice (an LMTP reply did not arrive within %d ms)" % T_STEP,
+                                  {"suite": "policy", "world": wi, "ops": scen[wi][:400]})
+            continue
         pos = len(POP)
         before = obs[pos]
         pos += 1
